@@ -67,6 +67,39 @@ def do_import(wt, pid, which, dest=None):
     return True
 
 
+def do_run_scratch(dirs, tier, checks, tag):
+    """Like do_run, but on a scratch COPY of /repo (VERIF_REPO), so that /repo is never touched and runs may go in parallel."""
+    for d in dirs:
+        d = os.path.abspath(d)
+        name = os.path.basename(d.rstrip("/"))
+        meta = json.load(open(os.path.join(d, "meta.json")))
+        pids = checks or [meta["property"]]
+        scratch = tempfile.mkdtemp(prefix="verif-seed-")
+        tree = os.path.join(scratch, "tree")
+        sh(f"rsync -a --exclude .git /repo/ {tree}/")
+        rc, out = sh(f"patch -p1 -s < {os.path.join(d, 'patch.diff')}", cwd=tree)
+        if rc != 0:
+            print(name, "patch does not apply:", out[-300:])
+            shutil.rmtree(scratch, ignore_errors=True)
+            continue
+        res = {"tier": tier, "checks": {}, "mode": "scratch copy of /repo"}
+        try:
+            for pid in pids:
+                t0 = time.time()
+                rc, out = sh(f"./check {pid} --tier {tier}", cwd=VERIF,
+                             env={"VERIF_REPO": tree, "VERIF_EVIDENCE_DIR": scratch, "VERIF_REPLAY_DIR": scratch})
+                viol = [ln for ln in out.splitlines() if ln.startswith("VIOLATION")]
+                why = [ln.strip()[:300] for ln in out.splitlines() if ln.strip().startswith("!!")][:2]
+                res["checks"][pid] = {"exit": rc, "violation_lines": len(viol), "first_reason": why, "wall_s": round(time.time() - t0, 1)}
+        finally:
+            shutil.rmtree(scratch, ignore_errors=True)
+        det = [p for p, r in res["checks"].items() if r["exit"] == 1 and r["violation_lines"]]
+        res["detected_by"] = det
+        json.dump(res, open(os.path.join(d, f"result_{tag}.json"), "w"), indent=1)
+        print(name, "DETECTED by " + ",".join(det) if det else "MISSED", {p: r["exit"] for p, r in res["checks"].items()}, flush=True)
+    return 0
+
+
 def do_run(dirs, tier, checks):
     rc, out = sh("git status --porcelain", cwd="/repo")
     if out.strip():
@@ -112,9 +145,12 @@ def main():
         tier = "quick"
         checks = None
         dirs = []
+        scratch_tag = None
         it = iter(a[1:])
         for x in it:
-            if x == "--tier":
+            if x == "--scratch":
+                scratch_tag = next(it)
+            elif x == "--tier":
                 tier = next(it)
             elif x == "--checks":
                 checks = next(it).split(",")
@@ -122,6 +158,8 @@ def main():
                 dirs.append(x)
         if not dirs:
             dirs = sorted(os.path.join(SEEDED, x) for x in os.listdir(SEEDED) if os.path.isdir(os.path.join(SEEDED, x)))
+        if scratch_tag:
+            sys.exit(do_run_scratch(dirs, tier, checks, scratch_tag))
         sys.exit(do_run(dirs, tier, checks))
     print(__doc__)
     sys.exit(2)
